@@ -505,7 +505,9 @@ def M_push_cursor(s, ch):
             s1 = M_scroll(s, False) if y == s.scrollregion_end else s
             ny = ite(y == s.scrollregion_end, y, y + 1)
             s2 = M_push_char(M_set_cursor(s1, 0, ny), ch, 1, ny)
-            return upd(s2, is_rotten_cursor=False)
+            # (on a one-column screen the cell just written is again the last column: the wrap stays pending;
+            #  the code cleared the flag there before fix: commit 9eeb5bc and lost every second character)
+            return upd(s2, is_rotten_cursor=(s.width <= 1))
         return upd(M_push_char(s, ch, x + 1, y), is_rotten_cursor=False)
     return M_push_char(upd(s, is_rotten_cursor=False), ch, ite(x + 1 < s.width, x + 1, x), y)
 
@@ -1208,7 +1210,7 @@ class push_cursor:
         if not settled(old):
             return
         wraps = both(old.modes.autowrap, x0 + 1 >= w, old.is_rotten_cursor)
-        yield "wrap-pending-exactly-after-writing-the-last-column", s.is_rotten_cursor == both(old.modes.autowrap, x0 + 1 >= w, neg(old.is_rotten_cursor))
+        yield "wrap-pending-exactly-after-writing-the-last-column", s.is_rotten_cursor == both(old.modes.autowrap, x0 + 1 >= w, either(neg(old.is_rotten_cursor), w <= 1))
         yield "advances-one-column-when-there-is-room", implies(x0 + 1 < w, both(s.term_cursor[0] == x0 + 1, implies(neg(old.modes.constrain_scrolling), s.term_cursor[1] == y0)))
         yield "stays-in-the-last-column-until-the-next-character", implies(both(x0 + 1 >= w, neg(wraps)), s.term_cursor[0] == x0)
         if wraps:
